@@ -148,9 +148,10 @@ EndClause(c, g, lr, out, skip) ==
 (* MODEL                                                                                          *)
 
 VARIABLES cfg, plan, pc, eff, cur, curform, method, body, hdrs, resp, outcome, hist, wire, g, bad,
-          hdrsAlt     \* observation only: the headers the design without the recorded deviations would carry
-vars == <<cfg, plan, pc, eff, cur, curform, method, body, hdrs, resp, outcome, hist, wire, g, bad, hdrsAlt>>
-View == <<cfg, plan, pc, eff, cur, curform, method, body, hdrs, resp, outcome, g, bad, hdrsAlt>>   \* hist, wire: observation only
+          hdrsAlt,    \* observation only: the headers the design without the recorded deviations would carry
+          allpx       \* every redirect followed so far pointed at the forwarding proxy's own origin (class of D10)
+vars == <<cfg, plan, pc, eff, cur, curform, method, body, hdrs, resp, outcome, hist, wire, g, bad, hdrsAlt, allpx>>
+View == <<cfg, plan, pc, eff, cur, curform, method, body, hdrs, resp, outcome, g, bad, hdrsAlt, allpx>>   \* hist, wire: observation only
 
 Payload == "payload"
 
@@ -180,7 +181,7 @@ NoRetry == RetryInit(N, N, TRUE, {})
 Init == \E c \in CfgSet : \E p \in (IF Mode = "planned" THEN PlanSet(c) ELSE {<<>>}) :
            /\ cfg = c /\ plan = p /\ pc = "derive" /\ eff = NoRetry
            /\ cur = c.start /\ curform = "pathabs" /\ method = c.method /\ body = c.body /\ hdrs = c.hdrs
-           /\ resp = NoHop /\ outcome = NoOutcome /\ hist = <<>> /\ wire = <<>> /\ g = G0(c) /\ bad = "ok" /\ hdrsAlt = c.hdrs
+           /\ resp = NoHop /\ outcome = NoOutcome /\ hist = <<>> /\ wire = <<>> /\ g = G0(c) /\ bad = "ok" /\ hdrsAlt = c.hdrs /\ allpx = (c.client = "proxy")
 
 First(b, c) == IF b = "ok" THEN c ELSE b
 Finish(out) == /\ outcome' = out /\ pc' = "done" /\ bad' = First(bad, EndClause(cfg, g, resp, out, {}))
@@ -189,7 +190,7 @@ DerivePolicy ==
     /\ pc = "derive"
     /\ eff' = IF cfg.client = "pool" THEN FromInt(cfg.reqpol, cfg.flag, cfg.clipol) ELSE MgrDerive(cfg)
     /\ pc' = "attempt"
-    /\ UNCHANGED <<cfg, plan, cur, curform, method, body, hdrs, resp, outcome, hist, wire, g, bad, hdrsAlt>>
+    /\ UNCHANGED <<cfg, plan, cur, curform, method, body, hdrs, resp, outcome, hist, wire, g, bad, hdrsAlt, allpx>>
 
 \* HTTPConnectionPool.is_same_host: (scheme, normalised host, port with the default filled in)
 IsSameHost(u, v) == IF "IgnorePort" \in Deviations
@@ -207,6 +208,9 @@ MkMsg == [url |-> WireUrl, method |-> method, body |-> IF body = "none" THEN "no
           hdrs |-> HdrSet(hdrs) \cup AutoHdrs]
 AltHdrs == HdrSet(hdrsAlt) \cup AutoHdrs
 
+\* a SensitiveStripped failure inside the input class of the recorded finding D10 is latched with its class
+D10Tag == "SensitiveStripped@forwarding-proxy-own-origin"
+Tagged(cl) == IF cl = "SensitiveStripped" /\ cfg.client = "proxy" /\ allpx THEN D10Tag ELSE cl
 Attempt ==
     /\ pc = "attempt"
     /\ IF cfg.client = "pool" /\ ~PoolSameHost
@@ -214,9 +218,9 @@ Attempt ==
             /\ UNCHANGED <<wire, g>>
        ELSE /\ wire' = Append(wire, [msg |-> MkMsg, alt |-> AltHdrs])
             /\ g' = GAfter(cfg, g, resp, MkMsg)
-            /\ bad' = First(bad, MsgClause(cfg, g, resp, MkMsg, Payload, {}))
+            /\ bad' = First(bad, Tagged(MsgClause(cfg, g, resp, MkMsg, Payload, {})))
             /\ pc' = "await" /\ UNCHANGED outcome
-    /\ UNCHANGED <<cfg, plan, eff, cur, curform, method, body, hdrs, resp, hist, hdrsAlt>>
+    /\ UNCHANGED <<cfg, plan, eff, cur, curform, method, body, hdrs, resp, hist, hdrsAlt, allpx>>
 
 \* the environment: the server that received the request answers 200 or a redirect.
 \* A file-like body is only ever redirected by a 303 (which drops it): re-sending a stream after 301/302/307/308
@@ -230,13 +234,13 @@ Respond ==
     /\ \/ \E h \in NextHops : resp' = h /\ hist' = Append(hist, h)
        \/ (Mode = "free" \/ NextHops = {}) /\ resp' = OK200 /\ UNCHANGED hist
     /\ pc' = "handle"
-    /\ UNCHANGED <<cfg, plan, eff, cur, curform, method, body, hdrs, outcome, wire, g, bad, hdrsAlt>>
+    /\ UNCHANGED <<cfg, plan, eff, cur, curform, method, body, hdrs, outcome, wire, g, bad, hdrsAlt, allpx>>
 
 \* `redirect and response.get_redirect_location()` is falsy: hand the response to the caller
 Return ==
     /\ pc = "handle" /\ (resp.code = 200 \/ ~cfg.flag)
     /\ Finish(Resp(resp.code))
-    /\ UNCHANGED <<cfg, plan, eff, cur, curform, method, body, hdrs, resp, hist, wire, g, hdrsAlt>>
+    /\ UNCHANGED <<cfg, plan, eff, cur, curform, method, body, hdrs, resp, hist, wire, g, hdrsAlt, allpx>>
 
 Drop303(hs) == SelectSeq(hs, LAMBDA e : e.kind # "ctype")     \* _prepare_for_method_change
 See303 == resp.code = 303
@@ -252,7 +256,7 @@ PoolRedirect ==
     /\ hdrsAlt' = IF See303 THEN Drop303(hdrsAlt) ELSE hdrsAlt
     /\ cur' = Resolve(cur, resp) /\ curform' = resp.form
     /\ pc' = "incr"
-    /\ UNCHANGED <<cfg, plan, eff, resp, outcome, hist, wire, g, bad>>
+    /\ UNCHANGED <<cfg, plan, eff, resp, outcome, hist, wire, g, bad, allpx>>
 
 \* poolmanager.py: urljoin, 303 rewrite, strip loop
 Verbatim(h) == [scheme |-> cur.scheme, host |-> cur.host, port |-> cur.port, path |-> h.ref]
@@ -271,6 +275,7 @@ ManagerRedirect ==
           /\ hdrs' = IF strip THEN SelectSeq(h1, LAMBDA e : ~(e.kind \in eff.remove)) ELSE h1
           /\ hdrsAlt' = IF eff.remove # {} /\ ~SameOrigin(target, cur)
                         THEN SelectSeq(a1, LAMBDA e : ~(e.kind \in eff.remove)) ELSE a1
+          /\ allpx' = (allpx /\ SameOrigin(target, cfg.proxy))
     /\ Rewrite303
     /\ pc' = "incr"
     /\ UNCHANGED <<cfg, plan, eff, curform, resp, outcome, hist, wire, g, bad>>
@@ -279,13 +284,13 @@ ManagerRedirect ==
 Follow ==
     /\ pc = "incr" /\ ~IsExhausted(Increment(eff))
     /\ eff' = Increment(eff) /\ pc' = "attempt"
-    /\ UNCHANGED <<cfg, plan, cur, curform, method, body, hdrs, resp, outcome, hist, wire, g, bad, hdrsAlt>>
+    /\ UNCHANGED <<cfg, plan, cur, curform, method, body, hdrs, resp, outcome, hist, wire, g, bad, hdrsAlt, allpx>>
 
 \* MaxRetryError inside increment: re-raise, or hand out the last 3xx when raise_on_redirect is False
 Exhaust ==
     /\ pc = "incr" /\ IsExhausted(Increment(eff))
     /\ Finish(IF eff.raise THEN Raised("MaxRetryError") ELSE Resp(resp.code))
-    /\ UNCHANGED <<cfg, plan, eff, cur, curform, method, body, hdrs, resp, hist, wire, g, hdrsAlt>>
+    /\ UNCHANGED <<cfg, plan, eff, cur, curform, method, body, hdrs, resp, hist, wire, g, hdrsAlt, allpx>>
 
 Next == DerivePolicy \/ Attempt \/ Respond \/ Return \/ PoolRedirect \/ ManagerRedirect \/ Follow \/ Exhaust
 Spec == Init /\ [][Next]_vars
@@ -301,19 +306,18 @@ RelativeResolved       == bad # "RelativeResolved"
 ExhaustionShape        == bad # "ExhaustionShape"
 ReturnShape            == bad # "ReturnShape"
 OnlyDocumentedOutcomes == bad # "OnlyDocumentedOutcomes"
-SensitiveStripped      == bad # "SensitiveStripped"
+SensitiveStripped      == bad # "SensitiveStripped" /\ bad # D10Tag
 OthersPreserved        == bad # "OthersPreserved"
 SingleHostRefuses      == bad # "SingleHostRefuses"
 
-\* the class of inputs of the recorded finding D10: forwarding proxy, redirect target = the proxy's own origin
-D10Class == /\ cfg.client = "proxy" /\ Len(hist) >= 1
-            /\ hist[1].form \in {"abs", "schemerel"} /\ SameOrigin(Resolve(cfg.start, hist[1]), cfg.proxy)
-SensitiveStrippedExceptD10 == SensitiveStripped \/ D10Class
+\* as the code is: the only failures of SensitiveStripped lie in the input class of the recorded finding D10
+\* (forwarding proxy, and every redirect followed so far pointed at the proxy's own origin)
+SensitiveStrippedExceptD10 == bad # "SensitiveStripped"
 
 \* Model-level sanity: what the mechanism's counters say agrees with the caller-level budget
 ClausesKnown == bad \in {"ok", "RedirectWithinBudget", "NoContactWhenDisabled", "SeeOtherRewrites", "OthersKeepMethodBody",
                          "RelativeResolved", "ExhaustionShape", "ReturnShape", "OnlyDocumentedOutcomes",
-                         "SensitiveStripped", "OthersPreserved", "SingleHostRefuses"}
+                         "SensitiveStripped", "OthersPreserved", "SingleHostRefuses", D10Tag}
 WireBound == Len(wire) <= Len(hist) + 1 /\ g.n = Len(wire) /\ (g.n > 0 => g.lm = wire[Len(wire)].msg)
 \* once stripped, a sensitive header never comes back (the Model's own view of "every later request")
 StrippedStaysStripped == [][\A k \in KindsIn(hdrs') : k \in KindsIn(hdrs)]_vars
